@@ -71,6 +71,9 @@ CEligible(n, rt, role, I, valEnts) ==
     /\ \E x \in SeqSet(n.rts) : x.id = rt.id /\ x.ver = rt.ver /\ ~x.tee
     /\ rt.id \notin SeqSet(n.susp)
     /\ (rt.cons[role].vs => n.ent \in valEnts)
+    \* VRF beacon (production path): only nodes that were registered before the previous epoch's alpha was fixed and that
+    \* submitted a proof for it take part in committee elections
+    /\ (HasF(I, "vrf") /\ I.vrf) => (n.pi /\ n.elig)
 
 PoolSize(rt, role, I, valEnts) ==
     LET el == {n \in SeqSet(I.nodes) : CEligible(n, rt, role, I, valEnts)}
@@ -90,6 +93,8 @@ CommitteeClauses(ev, I, valEnts) ==
     IN <<
         <<\A c \in fresh : \E r \in rts : r.id = c.rt /\ r.compute,
           "a committee was elected for a runtime that is not an active compute runtime">>,
+        <<(HasF(I, "vrf") /\ I.vrf /\ ~I.can_elect) => fresh = {},
+          "a committee was elected although the previous epoch's VRF input was not of high quality">>,
         <<\A c \in cs : (\E r \in rts : r.id = c.rt) => c.valid_for = ev.epoch,
           "an active runtime keeps a committee of an earlier epoch after an election">>,
         <<\A c \in fresh : (\E r \in rts : r.id = c.rt /\ ~r.tee) =>
